@@ -154,7 +154,7 @@ type annSigner struct {
 
 func (s *annSigner) PluginAnnotations() map[string]string { return s.ann }
 
-func buildLayout(dir string, annotated bool) (ocispec.Descriptor, error) {
+func buildLayout(dir string, annotated bool, artAnnValue string) (ocispec.Descriptor, error) {
 	ctx := context.Background()
 	store, err := oci.New(dir)
 	if err != nil {
@@ -171,7 +171,7 @@ func buildLayout(dir string, annotated bool) (ocispec.Descriptor, error) {
 	}
 	tagged := desc
 	if annotated {
-		tagged.Annotations = map[string]string{artAnnKey: "42"}
+		tagged.Annotations = map[string]string{artAnnKey: artAnnValue}
 	}
 	if err := store.Tag(ctx, tagged, "v1"); err != nil {
 		return ocispec.Descriptor{}, err
@@ -223,6 +223,8 @@ func runNotationSign() int {
 		var in SignIn
 		must(json.Unmarshal(c.In, &in))
 		format := []string{"jws", "cose"}[mix(*flagSeed, c.ID, "fmt")%2]
+		// the artifact's own annotation has a value or an EMPTY value (the key is there all the same)
+		artAnnValue := []string{"42", ""}[mix(*flagSeed, c.ID, "annv")%2]
 		obs := SignObs{Calls: []SignCallObs{}}
 		ctx := context.Background()
 		dir, err := os.MkdirTemp(*flagScratch, "layout")
@@ -244,11 +246,11 @@ func runNotationSign() int {
 		if in.Art.Store == "mem" {
 			artDesc = ocispec.Descriptor{MediaType: mtA, Digest: digestOf(digest.SHA256, []byte("mem artifact")), Size: 777}
 			if in.Art.Annotated {
-				artDesc.Annotations = map[string]string{artAnnKey: "42"}
+				artDesc.Annotations = map[string]string{artAnnKey: artAnnValue}
 			}
 			mem = &sharedRepo{desc: artDesc}
 		} else {
-			artDesc, err = buildLayout(dir, in.Art.Annotated)
+			artDesc, err = buildLayout(dir, in.Art.Annotated, artAnnValue)
 			must(err)
 			openDisk()
 		}
